@@ -11,9 +11,9 @@ import enum
 from typing import NewType, Optional, TypeVar
 
 try:  # typing_extensions is a pyanalyze dependency
-    from typing_extensions import NotRequired, TypedDict
+    from typing_extensions import NotRequired, ReadOnly, Required, TypedDict
 except ImportError:  # pragma: no cover
-    from typing import NotRequired, TypedDict
+    from typing import NotRequired, ReadOnly, Required, TypedDict
 
 
 class A:
@@ -112,6 +112,53 @@ class TD4(TypedDict, total=False):
     a: list[int]
     c: tuple[int, str]
 
+
+# TypedDict inheritance with mixed totality in both directions, qualifiers, functional syntax,
+# closed / extra_items (all converted through type_from_runtime by the checks)
+class TDBase(TypedDict):
+    i: int
+
+
+class TDChild(TDBase, total=False):  # non-total child of a total base: `i` stays required
+    l: str
+
+
+class TDGrand(TDChild):  # total grandchild
+    g: bytes
+
+
+class TDOptBase(TypedDict, total=False):
+    o: int
+
+
+class TDReqChild(TDOptBase):  # total child of a non-total base: `o` stays optional
+    r: str
+
+
+class TDQ(TypedDict, total=False):
+    a: Required[int]
+    b: ReadOnly[str]
+    c: NotRequired[None]
+
+
+TDF = TypedDict("TDF", {"a": int, "b": NotRequired[str]})
+TDFopt = TypedDict("TDFopt", {"a": int, "b": Required[str]}, total=False)
+
+
+class TDClosed(TypedDict, closed=True):
+    a: int
+
+
+class TDExtra(TypedDict, extra_items=str):
+    a: int
+
+
+class TDExtraChild(TDExtra, total=False):
+    b: int
+
+
+TYPEDDICTS = ["TD1", "TD2", "TD3", "TD4", "TDBase", "TDChild", "TDGrand", "TDOptBase", "TDReqChild", "TDQ", "TDF", "TDFopt",
+              "TDClosed", "TDExtra", "TDExtraChild"]
 
 T1 = TypeVar("T1")
 T2 = TypeVar("T2")
